@@ -395,8 +395,10 @@ fn bfs_alphabet(full: bool, ch: u8) -> Vec<Op> {
     }
     ops.push(Op::Reset);
     ops.push(Op::Feed { carrier: 0, s: 0x90 | ch, d1: 60, d2: 100 }); // a non-CC on the channel
-    ops.push(Op::cc(ch, 64, 5)); // a CC outside 0-63
-    ops.push(Op::cc(ch, 127, 0));
+    // every Control Change outside 0-63 (one value each): none may disturb the pending MSB
+    for cn in 64..128u8 {
+        ops.push(Op::cc(ch, cn, 5));
+    }
     ops.push(Op::Feed { carrier: 1, s: 0xF8, d1: 0, d2: 0 }); // system message
     ops
 }
@@ -447,7 +449,7 @@ pub fn run_c08(ctx: &Ctx) -> Report {
             &format!(
                 "all histories of every length on channel {} over {} (fixpoint of scanner state x reference state)",
                 ch,
-                if full { "the complete contributing alphabet: 64 controllers x 128 values + reset + non-CC + CC 64 + CC 127 + system message" } else { "all 64 controllers x values {0,1,64,127} + reset + non-CC + CC 64 + CC 127 + system message" }
+                if full { "the complete contributing alphabet: 64 controllers x 128 values + reset + non-CC + CC 64..127 + system message" } else { "all 64 controllers x values {0,1,64,127} + reset + non-CC + CC 64..127 + system message" }
             ),
             "non-trivial = transition taken from a non-initial state",
             out.complete && out.failure.is_none(),
